@@ -240,8 +240,8 @@ func corrRestart(c *Ctx, rng *Rand) {
 	n := c.N(80, 800)
 	type rc struct {
 		w, h, used, decl int
-		samp            string
-		seed            uint64
+		samp             string
+		seed             uint64
 	}
 	cases := make([]rc, n)
 	for i := range cases {
